@@ -52,6 +52,9 @@ FAMILIES = {
     "repeat_loop": lambda n, L, v: wrap(("do i = 1, 2\n" + v + " = 1\nend do\n") * n),
     "repeat_nonblock": lambda n, L, v: wrap("".join(["do " + lab(L, i) + " i = 1, 2\n" + lab(L, i) + " " + v + " = 1\n" for i in range(n)])),
     "repeat_nonblock_comments": lambda n, L, v: wrap("".join(["! loop %d\ndo " % i + lab(L, i) + " i = 1, 2\n" + lab(L, i) + " " + v + " = 1\n" for i in range(n)])),
+    # the DO statement spells its label with a leading zero (not significant in a label)
+    "repeat_nonblock_lead0": lambda n, L, v: wrap("".join(["do 0" + lab(L, i) + " i = 1, 2\n" + lab(L, i) + " " + v + " = 1\n" for i in range(n)])),
+    "do_label_lead0": lambda n, L, v: wrap("".join(["do 0" + lab(L, i) + " i = 1, 2\n" + v + " = 1\n0" + lab(L, i) + " continue\n" for i in range(n)])),
     "if_comments": lambda n, L, v: nest(lambda i: "! level %d\nif (a > %d) then\n" % (i, i), lambda i: "end if ! %d\n" % i, n, v + " = 1\n"),
     "not_nest": lambda n, L, v: wrap(v + " = " + "b .and. .not. (" * n + "a" + ")" * n + "\n"),
     "arith_nest": lambda n, L, v: wrap(v + " = " + "a + (b * " * n + "c" + ")" * n + "\n"),
@@ -77,7 +80,7 @@ def units(tier):
             sizes = (1, 2, 4, 8)      # deeper expression nests hit Python's recursion limit natively (see C06 finding)
         for n in sizes:
             for std in ("f2003", "f2008"):
-                us.append(dict(h="grow", fam=fam, n=n, std=std, sym=("labels" if fam in ("do_label", "do_shared", "repeat_nonblock", "repeat_nonblock_comments", "do_nonblock") else "name"), cost=n))
+                us.append(dict(h="grow", fam=fam, n=n, std=std, sym=("labels" if fam in ("do_label", "do_shared", "repeat_nonblock", "repeat_nonblock_comments", "do_nonblock", "repeat_nonblock_lead0", "do_label_lead0") else "name"), cost=n))
     return us
 
 
